@@ -203,7 +203,8 @@ obj_mutants = [
     mut("add_subtracts", "addObjoffset.inc", "m_objoffset += val;", "m_objoffset -= val;"),
     mut("add_overwrites", "addObjoffset.inc", "m_objoffset += val;", "m_objoffset = val;"),
     mut("reset_dropped", "simplify_reset.inc", "this->m_objoffset = 0.0;", ";"),
-    mut("history_kept", "simplify_reset.inc", "m_hist.reSize(0);", ";"),
+    mut("result_not_okay", "simplify_reset.inc", r"m_result\s*=\s*this->OKAY;", "m_result = this->VANISHED;", regex=True),
+    mut("history_kept", "simplify_reset.inc", r"if\(m_hist\.size\(\) > 0\)\s*\{\s*m_hist\.clear\(\);\s*\}\s*m_hist\.reSize\(0\);", ";", regex=True),
     mut("postsolved_kept", "simplify_reset.inc", "m_postsolved = false;", "m_postsolved = true;"),
 ]
 OBJ_CONF = [
